@@ -4,7 +4,8 @@
 // message.Message + reference codec (ref/codec.py) in a python3 child (py/wire_peer.py, one per worker process).
 // modes (--opt mode=): wire (default) | frame (8-byte stream frame: three gateways in memory + TCP loopback echo through
 //                      message_transceiver_thread.py) | regress (fixed witnesses + documentation examples)
-// options: pypeer=<path of wire_peer.py> python=<interpreter> pynames=utf8|ascii emit=<side file of {case,script,cpp} lines>
+// options: pypeer=<path of wire_peer.py> python=<interpreter> emit=<side file of {case,script,cpp} lines>
+//          mask=pynames,umzero (silence the two defects found on the pinned tree; they are counted as masked_*)
 #include "message/Message.h"
 #include "iogateway/MessageIOGateway.h"
 #include "dataio/TCPSocketDataIO.h"
@@ -245,6 +246,15 @@ static void Json(const Scr & s, std::string & o)
 
 // ------------------------------------------------------------------------------------------------ verdict plumbing
 static bool caseBad; static std::string curJson; static std::string curCppHex;
+// A defect of one implementation that has its own stable key: remembered, the case goes on (with that corner skipped) so that
+// everything else is still judged; reported at the end of the case if nothing else failed.  --opt mask=a,b silences a key (counted).
+static std::string deferredKey, deferredDetail;
+static bool Masked(const char * what) { const std::string m = "," + vh::opt("mask", "") + ","; return m.find(std::string(",") + what + ",") != std::string::npos; }
+static void Known(const char * maskName, const std::string & key, const std::string & detail)
+{
+   if (Masked(maskName)) { vh::stat(std::string("masked_") + maskName); return; }
+   if (deferredKey.empty()) { deferredKey = key; deferredDetail = detail; }
+}
 static void Fail(const std::string & key, const std::string & what)
 {
    if (caseBad) return;     // one violation per case
@@ -399,6 +409,7 @@ static c_status_t BuildUM(const Scr & s, UMessage * um)
    }
    return r;
 }
+static bool umZeroLast;   // set by CheckUM when it met the UMFindData zero-length-last-item defect
 static bool CheckUM(const UMessage * m, const Scr & s, std::string & why)
 {
    if (UMGetWhatCode(m) != s.what) BAD("what is %u, script says %u", UMGetWhatCode(m), s.what);
@@ -422,7 +433,9 @@ static bool CheckUM(const UMessage * m, const Scr & s, std::string & why)
             case B_POINT_TYPE:  { UPoint v; ok = UMFindPoint(m, n, k, &v) == CB_NO_ERROR && FB(v.x) == (uint32_t)f.bits[2 * k] && FB(v.y) == (uint32_t)f.bits[2 * k + 1]; } break;
             case B_RECT_TYPE:   { URect v; ok = UMFindRect(m, n, k, &v) == CB_NO_ERROR && FB(v.left) == (uint32_t)f.bits[4 * k] && FB(v.top) == (uint32_t)f.bits[4 * k + 1] && FB(v.right) == (uint32_t)f.bits[4 * k + 2] && FB(v.bottom) == (uint32_t)f.bits[4 * k + 3]; } break;
             case B_STRING_TYPE: { const char * v = UMGetString(m, n, k); ok = v && f.sv[k] == v; } break;
-            case B_RAW_TYPE:    { const void * p = NULL; uint32 nb = 0xFFFFFFFFu; ok = UMFindData(m, n, B_RAW_TYPE, k, &p, &nb) == CB_NO_ERROR && nb == f.sv[k].size() && (nb == 0 || memcmp(p, f.sv[k].data(), nb) == 0); } break;
+            case B_RAW_TYPE:    { const void * p = NULL; uint32 nb = 0xFFFFFFFFu; const c_status_t fr = UMFindData(m, n, B_RAW_TYPE, k, &p, &nb);
+                                  if (fr != CB_NO_ERROR && f.sv[k].empty() && k + 1 == c) { umZeroLast = true; Known("umzero", "micro|finddata-zero-length-last-item", vh::fmt("UMFindData('%s', B_RAW_TYPE, %u) returns CB_ERROR for a zero-length item that is the last of its field (UMGetNumItemsInField counts it: %u)", n, k, c)); }
+                                  else ok = fr == CB_NO_ERROR && nb == f.sv[k].size() && (nb == 0 || memcmp(p, f.sv[k].data(), nb) == 0); } break;
             case B_MESSAGE_TYPE: { UMessage sub; if (UMFindMessage(m, n, k, &sub) != CB_NO_ERROR) ok = false; else { std::string w2; if (!CheckUM(&sub, f.mv[k], w2)) BAD("'%s'[%u]/%s", n, k, w2.c_str()); } } break;
          }
          if (!ok) BAD("field '%s' item %u: getter disagrees with the script", n, k);
@@ -541,7 +554,7 @@ static void EnsureWirePeer()
 static std::vector<uint8> umBuf, umBuf2;
 static void RunWire(long k, const Scr & s, bool countStats)
 {
-   caseBad = false;
+   caseBad = false; deferredKey.clear(); umZeroLast = false;
    Info in; Walk(s, in, 0);
    curJson.clear(); Json(s, curJson);
    MessageRef cm = BuildCpp(s);
@@ -550,8 +563,8 @@ static void RunWire(long k, const Scr & s, bool countStats)
    if (bc.size() >= 9 && bc.compare(bc.size() - 9, 9, "<OVERRUN>") == 0) { Fail("cpp|flatten-writes-beyond-flattenedsize", "Message::Flatten wrote past FlattenedSize()"); return; }
 
    // ---- hand the script and the C++ bytes to the Python side first (it works while the C legs run here)
-   // pynames=ascii masks the known message.py defect (FlattenedSize() counts characters, not UTF-8 bytes, of field names)
-   static const bool maskNames = (vh::opt("pynames", "utf8") == "ascii");
+   // mask=pynames masks the known message.py defect (FlattenedSize() counts characters, not UTF-8 bytes, of field names)
+   static const bool maskNames = Masked("pynames");
    const char * nopy = in.nonUtf8 ? "non_utf8_string" : in.nanPtRc ? "nan_in_point_or_rect" : (in.nonAsciiName && maskNames) ? "non_ascii_field_name_masked" : "";
    {
       std::string line; line.reserve(curJson.size() + bc.size() * 2 + 96);
@@ -609,6 +622,7 @@ static void RunWire(long k, const Scr & s, bool countStats)
       UMessage ur;
       if (UMInitializeWithExistingData(&ur, (const uint8 *)bc.data(), (uint32)bc.size()) != CB_NO_ERROR) Fail("parse|micro-rejects-cpp-bytes", "UMInitializeWithExistingData returns an error");
       else if (!CheckUM(&ur, s, why)) Fail("parse|micro-of-cpp-bytes-content", why);
+      else if (umZeroLast) { if (countStats) vh::stat("micro_reflatten_skipped_finddata_defect"); }
       else {
          umBuf2.assign(bc.size() + 128, 0); UMessage uc; if (UMInitializeToEmptyMessage(&uc, umBuf2.data(), (uint32)umBuf2.size(), UMGetWhatCode(&ur)) != CB_NO_ERROR) HarnessAbort("UMInitializeToEmptyMessage");
          if (CopyUM(&ur, &uc) != CB_NO_ERROR) Fail("reflatten|micro-of-cpp-bytes-refused", "getter or adder failed while copying the parsed message");
@@ -629,6 +643,7 @@ static void RunWire(long k, const Scr & s, bool countStats)
       }
    }
 
+   if (!caseBad && !deferredKey.empty()) Fail(deferredKey, deferredDetail);
    if (countStats) {
       vh::distinct(vh::fnvs(bc), s.f.size() >= 1 && in.items >= 2);
       vh::stat("bytes_total", (long)bc.size()); vh::statmax("max_bytes", (long)bc.size()); vh::statmax("max_depth", in.depth); vh::statmax("max_items_in_field", in.maxCount); vh::statmax("max_fields", (long)s.f.size());
@@ -647,12 +662,286 @@ static Prof WireProf()
    return p;
 }
 
-//@@FRAME@@
-static void RunFrame(long){} static void FrameShutdown(){}
+// ------------------------------------------------------------------------------------------------ frame mode
+// The documented stream frame, written by hand: [body length, 4 bytes LE]['Enc0' = 1164862256, 4 bytes LE][body]
+static std::string DocFrame(const std::string & body)
+{
+   std::string f; const uint32_t n = (uint32_t)body.size(), e = 1164862256u;
+   for (int i = 0; i < 4; i++) f.push_back((char)((n >> (8 * i)) & 0xFF));
+   for (int i = 0; i < 4; i++) f.push_back((char)((e >> (8 * i)) & 0xFF));
+   return f + body;
+}
+struct MemPipe { std::string q; size_t rd; MemPipe() : rd(0) {} size_t Avail() const { return q.size() - rd; } };
+static uint32_t Chop(uint32_t n) { if (n == 0) return 0; switch (R(6)) { case 0: return 0; case 1: return 1; case 2: case 3: return n; case 4: return 1 + R(n < 8 ? n : 8); default: return 1 + R(n); } }
+class MemIO : public DataIO {
+public:
+   MemPipe * rd; MemPipe * wr;
+   MemIO(MemPipe * r, MemPipe * w) : rd(r), wr(w) {}
+   virtual io_status_t Read(void * b, uint32 size) { if (!rd) return io_status_t((int32)0); uint32_t av = (uint32_t)rd->Avail(); uint32_t n = Chop(av < size ? av : size); memcpy(b, rd->q.data() + rd->rd, n); rd->rd += n; return io_status_t((int32)n); }
+   virtual io_status_t Write(const void * b, uint32 size) { if (!wr) return io_status_t((int32)0); uint32_t n = Chop(size); wr->q.append((const char *)b, n); return io_status_t((int32)n); }
+   virtual void FlushOutput() {} virtual void Shutdown() {}
+   virtual const ConstSocketRef & GetReadSelectSocket() const { return GetNullSocket(); } virtual const ConstSocketRef & GetWriteSelectSocket() const { return GetNullSocket(); }
+};
+// passes everything to the TCP socket and keeps a copy of both directions
+class RecIO : public DataIO {
+public:
+   DataIORef child; std::string in, out; bool eof;
+   explicit RecIO(const DataIORef & c) : child(c), eof(false) {}
+   virtual io_status_t Read(void * b, uint32 size) { io_status_t r = child()->Read(b, size); if (r.IsError()) eof = true; else if (r.GetByteCount() > 0) in.append((const char *)b, (size_t)r.GetByteCount()); return r; }
+   virtual io_status_t Write(const void * b, uint32 size) { io_status_t r = child()->Write(b, size); if (r.IsOK() && r.GetByteCount() > 0) out.append((const char *)b, (size_t)r.GetByteCount()); return r; }
+   virtual void FlushOutput() { child()->FlushOutput(); } virtual void Shutdown() { child()->Shutdown(); }
+   virtual const ConstSocketRef & GetReadSelectSocket() const { return child()->GetReadSelectSocket(); } virtual const ConstSocketRef & GetWriteSelectSocket() const { return child()->GetWriteSelectSocket(); }
+};
+struct Rx : public AbstractGatewayMessageReceiver {
+   std::vector<std::string> got;
+   virtual void MessageReceivedFromGateway(const MessageRef & m, void *) { got.push_back(m() ? FlatCpp(*m()) : std::string("<null>")); }
+};
+static int32 CSend(const uint8 * buf, uint32 n, void * arg) { MemPipe * p = (MemPipe *)arg; uint32 k = Chop(n); p->q.append((const char *)buf, k); return (int32)k; }
+static int32 CRecv(uint8 * buf, uint32 n, void * arg) { MemPipe * p = (MemPipe *)arg; uint32 av = (uint32)p->Avail(); uint32 k = Chop(av < n ? av : n); memcpy(buf, p->q.data() + p->rd, k); p->rd += k; return (int32)k; }
+static std::string Join(const std::vector<std::string> & v) { std::string o; for (size_t i = 0; i < v.size(); i++) o += v[i]; return o; }
+static std::string ListDiff(const char * ta, const std::vector<std::string> & a, const char * tb, const std::vector<std::string> & b)
+{
+   if (a.size() != b.size()) return vh::fmt("%s has %zu messages, %s has %zu", ta, a.size(), tb, b.size());
+   for (size_t i = 0; i < a.size(); i++) if (a[i] != b[i]) return vh::fmt("message #%zu: ", i) + DiffText(ta, a[i], tb, b[i]);
+   return "equal";
+}
+
+// C++ MessageIOGateway: Messages -> stream (memory)
+static bool CppOut(const std::vector<MessageRef> & ms, std::string & stream, std::string & why)
+{
+   MemPipe p; MessageIOGateway gw; gw.SetDataIO(DataIORef(new MemIO(NULL, &p)));
+   for (size_t i = 0; i < ms.size(); i++) if (gw.AddOutgoingMessage(ms[i]).IsError()) HarnessAbort("AddOutgoingMessage");
+   while (gw.HasBytesToOutput()) { io_status_t r = gw.DoOutput(); if (r.IsError()) { why = std::string("MessageIOGateway::DoOutput: ") + r.GetStatus()(); return false; } }
+   stream = p.q; return true;
+}
+// stream -> C++ MessageIOGateway -> flattened bodies
+static bool CppIn(const std::string & stream, std::vector<std::string> & bodies, std::string & why)
+{
+   MemPipe p; p.q = stream; MessageIOGateway gw; gw.SetDataIO(DataIORef(new MemIO(&p, NULL))); Rx rx; int quiet = 0;
+   while (quiet < 3) { io_status_t r = gw.DoInput(rx); if (r.IsError()) { why = std::string("MessageIOGateway::DoInput: ") + r.GetStatus()() + vh::fmt(" at stream offset %zu of %zu", p.rd, p.q.size()); bodies = rx.got; return false; } if (p.Avail() == 0 && r.GetByteCount() == 0) quiet++; else quiet = 0; }
+   bodies = rx.got; return true;
+}
+static bool MiniOut(const std::vector<Scr> & ss, std::string & stream, std::string & why)
+{
+   MemPipe p; MMessageGateway * mg = MGAllocMessageGateway(); if (!mg) HarnessAbort("MGAllocMessageGateway"); bool ok = true;
+   for (size_t i = 0; i < ss.size() && ok; i++) {
+      MMessage * mm = BuildMM(ss[i]); if (MGAddOutgoingMessage(mg, mm) != CB_NO_ERROR) HarnessAbort("MGAddOutgoingMessage"); MMFreeMessage(mm);
+      if (R(2)) continue;    // sometimes several Messages are queued before anything is written
+      while (MGHasBytesToOutput(mg)) if (MGDoOutput(mg, R(2) ? ~0u : 1 + R(64), CSend, &p) < 0) { why = "MGDoOutput returns an error"; ok = false; break; }
+   }
+   while (ok && MGHasBytesToOutput(mg)) if (MGDoOutput(mg, R(2) ? ~0u : 1 + R(64), CSend, &p) < 0) { why = "MGDoOutput returns an error"; ok = false; }
+   MGFreeMessageGateway(mg); stream = p.q; return ok;
+}
+static bool MiniIn(const std::string & stream, std::vector<std::string> & bodies, std::string & why)
+{
+   MemPipe p; p.q = stream; MMessageGateway * mg = MGAllocMessageGateway(); if (!mg) HarnessAbort("MGAllocMessageGateway"); bool ok = true; int quiet = 0;
+   while (ok && quiet < 3) {
+      MMessage * rm = NULL; int32 n = MGDoInput(mg, R(2) ? ~0u : 1 + R(64), CRecv, &p, &rm);
+      if (n < 0) { why = vh::fmt("MGDoInput returns an error at stream offset %zu of %zu", p.rd, p.q.size()); ok = false; }
+      if (rm) { bodies.push_back(FlatMM(rm)); MMFreeMessage(rm); }
+      if (p.Avail() == 0 && n == 0 && !rm) quiet++; else quiet = 0;
+   }
+   MGFreeMessageGateway(mg); return ok;
+}
+static std::vector<uint8> ugIn, ugOut;
+static bool MicroOut(const std::vector<Scr> & ss, std::string & stream, std::string & why)
+{
+   MemPipe p; UMessageGateway ug; UGGatewayInitialize(&ug, ugIn.data(), (uint32)ugIn.size(), ugOut.data(), (uint32)ugOut.size());
+   for (size_t i = 0; i < ss.size(); i++) {
+      UMessage um = UGGetOutgoingMessage(&ug, ss[i].what);
+      if (!UMIsMessageValid(&um)) { while (UGHasBytesToOutput(&ug)) if (UGDoOutput(&ug, ~0u, CSend, &p) < 0) { why = "UGDoOutput returns an error"; return false; } um = UGGetOutgoingMessage(&ug, ss[i].what); if (!UMIsMessageValid(&um)) HarnessAbort("UGGetOutgoingMessage gives no message although the gateway is drained"); }
+      if (BuildUM(ss[i], &um) != CB_NO_ERROR) { UGOutgoingMessageCancelled(&ug, &um); while (UGHasBytesToOutput(&ug)) if (UGDoOutput(&ug, ~0u, CSend, &p) < 0) { why = "UGDoOutput returns an error"; return false; } um = UGGetOutgoingMessage(&ug, ss[i].what); if (!UMIsMessageValid(&um) || BuildUM(ss[i], &um) != CB_NO_ERROR) HarnessAbort("micro gateway: Message does not fit into an empty 2 MB output buffer"); }
+      UGOutgoingMessagePrepared(&ug, &um);
+      if (R(2)) continue;
+      while (UGHasBytesToOutput(&ug)) if (UGDoOutput(&ug, R(2) ? ~0u : 1 + R(64), CSend, &p) < 0) { why = "UGDoOutput returns an error"; return false; }
+   }
+   while (UGHasBytesToOutput(&ug)) if (UGDoOutput(&ug, R(2) ? ~0u : 1 + R(64), CSend, &p) < 0) { why = "UGDoOutput returns an error"; return false; }
+   stream = p.q; return true;
+}
+static bool MicroIn(const std::string & stream, std::vector<std::string> & bodies, std::string & why)
+{
+   MemPipe p; p.q = stream; UMessageGateway ug; UGGatewayInitialize(&ug, ugIn.data(), (uint32)ugIn.size(), ugOut.data(), (uint32)ugOut.size()); int quiet = 0;
+   while (quiet < 3) {
+      UMessage um; UMInitializeToInvalid(&um); int32 n = UGDoInput(&ug, R(2) ? ~0u : 1 + R(64), CRecv, &p, &um);
+      if (n < 0) { why = vh::fmt("UGDoInput returns an error at stream offset %zu of %zu", p.rd, p.q.size()); return false; }
+      const bool gotOne = UMIsMessageValid(&um); if (gotOne) bodies.push_back(std::string((const char *)UMGetFlattenedBuffer(&um), UMGetFlattenedSize(&um)));
+      if (p.Avail() == 0 && n == 0 && !gotOne) quiet++; else quiet = 0;
+   }
+   return true;
+}
+
+// ---- the live TCP connection to message_transceiver_thread.py (one per worker, re-made after every failure)
+struct Echo { Peer peer; ConstSocketRef sock; MessageIOGateway * gw; RecIO * rec; bool up; std::string peerSaid; Echo() : gw(NULL), rec(NULL), up(false) {} };
+static Echo echo;
+static void EchoDown(bool kill9)
+{
+   if (echo.gw) { delete echo.gw; echo.gw = NULL; echo.rec = NULL; }
+   echo.sock.Reset();
+   if (echo.peer.Running() || echo.peer.rfd >= 0) echo.peer.Stop(kill9);
+   echo.up = false;
+}
+static void EchoUp()
+{
+   if (echo.up) return;
+   uint16 port = 0; ConstSocketRef as = CreateAcceptingSocket(0, 20, &port, invalidIP);     // NOT localhostIP (::1): the Python thread connects to 127.0.0.1 with AF_INET
+   if (as() == NULL) HarnessAbort("cannot create the accepting socket");
+   (void)SetSocketBlockingEnabled(as, false);
+   std::vector<std::string> a; a.push_back("--echo"); a.push_back(vh::fmt("%u", (unsigned)port)); echo.peer = Peer(); echo.peer.Start(a); echo.peerSaid.clear();
+   SocketMultiplexer sm; ConstSocketRef s; const uint64 giveUp = GetRunTime64() + SecondsToMicros(60);
+   while (s() == NULL) {
+      (void)sm.RegisterSocketForReadReady(as.GetFileDescriptor()); (void)sm.WaitForEvents(GetRunTime64() + MillisToMicros(100));
+      s = Accept(as);
+      if (s() == NULL) { int st = echo.peer.Poll(); if (st != -1) HarnessAbort(vh::fmt("python echo peer ended before connecting (wait status %d): ", st) + echo.peer.Drain() + " stderr: " + echo.peer.ErrText()); if (GetRunTime64() > giveUp) HarnessAbort("python echo peer did not connect within 60 s"); }
+   }
+   (void)SetSocketBlockingEnabled(s, false);
+   echo.sock = s; echo.rec = new RecIO(DataIORef(new TCPSocketDataIO(s, false))); echo.gw = new MessageIOGateway; echo.gw->SetDataIO(DataIORef(echo.rec)); echo.up = true;
+   vh::stat("python_echo_peers_started");
+}
+static void FrameShutdown() { EchoDown(false); }
+
+// returns "" when all n echoes arrived, otherwise what ended the wait (decided without a clock: closed connection, gateway
+// error, or a proved stall = everything sent, nothing readable, every thread of the peer asleep with no CPU use over 6 samples)
+static std::string EchoExchange(const std::vector<MessageRef> & ms, Rx & rx)
+{
+   for (size_t i = 0; i < ms.size(); i++) if (echo.gw->AddOutgoingMessage(ms[i]).IsError()) HarnessAbort("AddOutgoingMessage");
+   SocketMultiplexer sm; const int fd = echo.sock.GetFileDescriptor(); int idle = 0; unsigned long long cpu = 0;
+   while (rx.got.size() < ms.size()) {
+      const size_t in0 = echo.rec->in.size(), out0 = echo.rec->out.size();
+      (void)sm.RegisterSocketForReadReady(fd); if (echo.gw->HasBytesToOutput()) (void)sm.RegisterSocketForWriteReady(fd);
+      (void)sm.WaitForEvents(GetRunTime64() + MillisToMicros(500));
+      if (echo.gw->HasBytesToOutput()) { io_status_t r = echo.gw->DoOutput(); if (r.IsError()) return std::string("C++ gateway cannot write: ") + r.GetStatus()(); }
+      io_status_t r = echo.gw->DoInput(rx);
+      if (r.IsError()) return std::string(echo.rec->eof ? "connection closed by the python peer: " : "C++ gateway rejects what the python peer sent: ") + r.GetStatus()();
+      if (echo.rec->in.size() != in0 || echo.rec->out.size() != out0 || echo.gw->HasBytesToOutput()) { idle = 0; continue; }
+      if (echo.peer.Poll() != -1) return "python peer process ended";
+      if (echo.peer.IdleSample(cpu)) idle++; else idle = 0;
+      if (idle >= 6) return "python peer is stalled: everything was sent, nothing comes back, all its threads are asleep and consume no CPU (6 samples, 3 s)";
+   }
+   return "";
+}
+
+static void RunFrame(long k)
+{
+   caseBad = false; deferredKey.clear();
+   if (ugIn.empty()) { ugIn.resize(2 * 1024 * 1024); ugOut.resize(2 * 1024 * 1024); }
+   Prof p; p.pySafe = true; p.nonAsciiNames = !Masked("pynames") && R(15) == 0; p.big = R(4) == 0; p.maxDepth = 3;
+   const uint32 n = 1 + (R(3) == 0 ? R(12) : R(4));
+   std::vector<Scr> ss; std::vector<MessageRef> ms; std::vector<std::string> bodies; std::string doc; bool nonAscii = false; Info tot;
+   curJson = "[";
+   for (uint32 i = 0; i < n; i++) { ss.push_back(Gen(0, p)); ms.push_back(BuildCpp(ss.back())); bodies.push_back(FlatCpp(*ms.back()())); doc += DocFrame(bodies.back()); Info in; Walk(ss.back(), in, 0); if (in.nonAsciiName) nonAscii = true; tot.fields += in.fields; if (curJson.size() < 1500) { if (i) curJson += ","; Json(ss.back(), curJson); } }
+   curJson += "]"; curCppHex = vh::hex(doc.data(), doc.size(), 200);
+   std::string why, sc, sm, su; std::vector<std::string> got;
+
+   // ---- (1) three producers in memory, against the documented frame and against each other
+   if (!CppOut(ms, sc, why)) Fail("frame|cpp-gateway-output-error", why);
+   else if (sc != doc) Fail("frame|cpp-gateway-vs-documented-frame", DiffText("documented", doc, "c++ gateway", sc));
+   if (!caseBad) { if (!MiniOut(ss, sm, why)) Fail("frame|mini-gateway-output-error", why); else if (sm != sc) Fail("frame|mini-gateway-vs-cpp-gateway", DiffText("c++ gateway", sc, "mini gateway", sm)); }
+   if (!caseBad) { if (!MicroOut(ss, su, why)) Fail("frame|micro-gateway-output-error", why); else if (su != sc) Fail("frame|micro-gateway-vs-cpp-gateway", DiffText("c++ gateway", sc, "micro gateway", su)); }
+   // ---- (2) mutual acceptance in memory (chopped reads)
+   if (!caseBad) { got.clear(); if (!MiniIn(sc, got, why)) Fail("frame|mini-gateway-rejects-cpp-frames", why); else if (got != bodies) Fail("frame|mini-gateway-reads-cpp-frames-differently", ListDiff("sent", bodies, "mini gateway", got)); }
+   if (!caseBad) { got.clear(); if (!MicroIn(sc, got, why)) Fail("frame|micro-gateway-rejects-cpp-frames", why); else if (got != bodies) Fail("frame|micro-gateway-reads-cpp-frames-differently", ListDiff("sent", bodies, "micro gateway", got)); }
+   if (!caseBad) { got.clear(); if (!CppIn(sm, got, why)) Fail("frame|cpp-gateway-rejects-mini-frames", why); else if (got != bodies) Fail("frame|cpp-gateway-reads-mini-frames-differently", ListDiff("sent", bodies, "c++ gateway", got)); }
+   if (!caseBad) { got.clear(); if (!CppIn(su, got, why)) Fail("frame|cpp-gateway-rejects-micro-frames", why); else if (got != bodies) Fail("frame|cpp-gateway-reads-micro-frames-differently", ListDiff("sent", bodies, "c++ gateway", got)); }
+   if (!caseBad) vh::stat("frames_compared_in_memory", (long)n);
+
+   // ---- (3) TCP loopback: C++ MessageIOGateway <-> message_transceiver_thread.py echoing every Message
+   if (!caseBad) {
+      EchoUp(); echo.rec->in.clear(); echo.rec->out.clear(); Rx rx;
+      const std::string ended = EchoExchange(ms, rx);
+      echo.peerSaid += echo.peer.Drain();
+      const char * defect = nonAscii ? "frame|py-flattenedsize-nonascii-fieldname" : NULL;
+      if (!ended.empty()) {
+         usleep(200000); echo.peerSaid += echo.peer.Drain();
+         Fail(defect ? defect : (ended.compare(0, 10, "python pee") == 0 && ended.find("stalled") != std::string::npos) ? "frame|python-peer-stalled" : ended.compare(0, 11, "C++ gateway") == 0 ? "frame|cpp-gateway-rejects-python-frames" : "frame|python-peer-closed-connection",
+              ended + vh::fmt(" | %zu of %u echoes, %zu bytes sent, %zu received | peer said: ", rx.got.size(), n, echo.rec->out.size(), echo.rec->in.size()) + echo.peerSaid.substr(0, 1200) + " | peer stderr: " + echo.peer.ErrText().substr(0, 600));
+      }
+      else if (echo.rec->out != doc) Fail("frame|cpp-gateway-on-tcp-vs-documented-frame", DiffText("documented", doc, "c++ gateway", echo.rec->out));
+      else if (rx.got != bodies) Fail(defect ? defect : "frame|python-echo-differs", ListDiff("sent", bodies, "echoed", rx.got));
+      else if (echo.rec->in != echo.rec->out) Fail(defect ? defect : "frame|python-frame-bytes-vs-cpp-frame-bytes", DiffText("c++ gateway wrote", echo.rec->out, "python wrote", echo.rec->in));
+      else {
+         vh::stat("frames_echoed_by_python", (long)n); vh::stat("tcp_bytes_echoed", (long)doc.size());
+         // what Python wrote is also what the two C gateways accept
+         got.clear(); if (!MiniIn(echo.rec->in, got, why) || got != bodies) Fail("frame|mini-gateway-of-python-frames", why);
+         got.clear(); if (!caseBad && (!MicroIn(echo.rec->in, got, why) || got != bodies)) Fail("frame|micro-gateway-of-python-frames", why);
+      }
+      if (caseBad) EchoDown(true);     // the stream may be out of step: next case gets a fresh peer
+   }
+   vh::distinct(vh::fnvs(doc), tot.fields >= 1);
+   vh::stat("messages", (long)n); vh::stat("bytes_total", (long)doc.size()); vh::statmax("max_frame_bytes", (long)(doc.size() / n)); if (nonAscii) vh::stat("cases_with_non_ascii_field_names");
+   if (vh::want_sample()) vh::sample(vh::fmt("case %ld: %u messages %zu bytes ", k, n, doc.size()) + curJson.substr(0, 200));
+}
 //@@FRAME-END@@
 
-//@@REGRESS@@
-static void Regress(){}
+// ------------------------------------------------------------------------------------------------ fixed witnesses (every run)
+static Fld MkI(const char * n, uint32 t, int64_t a, int64_t b, int cnt) { Fld f; f.name = n; f.type = t; f.iv.push_back(a); if (cnt > 1) f.iv.push_back(b); return f; }
+static Scr DocScript()
+{
+   Scr s; s.what = 0x74657374u;   // 'test'
+   s.f.push_back(MkI("a", B_INT32_TYPE, 1, -2, 2));
+   { Fld f; f.name = "s"; f.type = B_STRING_TYPE; f.sv.push_back("hi"); f.sv.push_back(""); s.f.push_back(f); }
+   s.f.push_back(MkI("b", B_BOOL_TYPE, 1, 0, 1));
+   { Fld f; f.name = "m"; f.type = B_MESSAGE_TYPE; Scr sub; sub.what = 7; f.mv.push_back(sub); s.f.push_back(f); }
+   { Fld f; f.name = ""; f.type = B_RAW_TYPE; f.sv.push_back(std::string("\x01\x02\x03", 3)); s.f.push_back(f); }
+   { Fld f; f.name = "p"; f.type = B_POINT_TYPE; f.bits.push_back(0x3F800000u); f.bits.push_back(0xC0000000u); s.f.push_back(f); }
+   return s;
+}
+// the bytes of DocScript() written out by hand from the layout comment of Message::Flatten
+static const char * DOC_HEX =
+   "30304d50" "74736574" "06000000"
+   "02000000" "6100" "474e4f4c" "08000000" "01000000" "feffffff"
+   "02000000" "7300" "52545343" "10000000" "02000000" "03000000" "686900" "01000000" "00"
+   "02000000" "6200" "4c4f4f42" "01000000" "01"
+   "02000000" "6d00" "4747534d" "10000000" "0c000000" "30304d50" "07000000" "00000000"
+   "01000000" "00" "54574152" "0b000000" "01000000" "03000000" "010203"
+   "02000000" "7000" "544e5042" "08000000" "0000803f" "000000c0";
+
+static void Regress()
+{
+   std::string why;
+   vh::begin_case(0);   // the documented layout, byte by byte, in all implementations
+   { g = vh::Rng(100); const Scr s = DocScript(); RunWire(0, s, true);
+     MessageRef m = BuildCpp(s); const std::string bc = FlatCpp(*m()), doc = FromHex(DOC_HEX);
+     if (bc != doc) { caseBad = false; Fail("regress|documented-example-bytes", DiffText("hand-written from the layout comment", doc, "c++", bc)); } }
+   vh::begin_case(1);   // message.py's own documentation example (its __main__ stub) is readable by the C++ and C codecs
+   { caseBad = false; curJson = "(message.py example)"; EnsureWirePeer(); wirePeer.Send("{\"cmd\":\"example\"}\n"); std::vector<std::string> v = SplitTabs(wirePeer.ReadLine());
+     if (v.size() != 3 || v[0] != "E") HarnessAbort("unexpected answer to the example request");
+     const std::string pb = FromHex(v[1]); curCppHex = vh::hex(pb.data(), pb.size(), 600);
+     if ((size_t)atol(v[2].c_str()) != pb.size()) Fail("regress|python-example-flattenedsize", "FlattenedSize() " + v[2] + vh::fmt(" but %zu bytes written", pb.size()));
+     Message back; status_t r = back.UnflattenFromBytes((const uint8 *)pb.data(), (uint32)pb.size());
+     if (r.IsError()) Fail("regress|cpp-rejects-python-example", r());
+     else {
+        if (FlatCpp(back) != pb) Fail("regress|cpp-reflatten-of-python-example", DiffText("python", pb, "c++", FlatCpp(back)));
+        int32 i32 = 0; int64 i64 = 0; bool bo = false; float fl = 0; Point pt; Rect rc; const String * st = NULL; ConstMessageRef sub; uint32 tc = 0, cnt = 0; const void * dp = NULL; uint32 dn = 0;
+        if (back.what != 666 || back.GetNumNames() != 16 || back.FindInt32("int32", 2, i32).IsError() || i32 != 30 || back.FindInt64("int64", 4, i64).IsError() || i64 != -25 || back.FindBool("bool", 0, bo).IsError() || !bo
+            || back.FindFloat("float", 4, fl).IsError() || fl != 4.0f || back.FindPoint("point", 0, pt).IsError() || pt.x() != 6.5f || pt.y() != 7.5f || back.FindRect("rect", 0, rc).IsError() || rc.left() != 9.1f || rc.bottom() != 12.5f
+            || back.FindString("string", 2, &st).IsError() || *st != "strongme!" || back.FindMessage("submsg", 0, sub).IsError() || sub()->what != 777 || sub()->GetString("hola") != "senor"
+            || back.GetInfo("data", &tc, &cnt).IsError() || tc != 555 || cnt != 3 || back.FindData("data", 555, 1, &dp, &dn).IsError() || dn != 6 || memcmp(dp, "stuff\0", 6) != 0
+            || back.HasName("cboolfalse") || back.HasName("cstring") || back.HasName("cpoint") || !back.HasName("crect2"))
+           Fail("regress|cpp-content-of-python-example", "the C++ Message parsed from message.py's example does not hold the documented values");
+     }
+     MMessage * mm = MMAllocMessage(0); MCK(mm, "MMAllocMessage");
+     if (MMUnflattenMessage(mm, pb.data(), (uint32)pb.size()) != CB_NO_ERROR) Fail("regress|mini-rejects-python-example", "MMUnflattenMessage"); else if (FlatMM(mm) != pb) Fail("regress|mini-reflatten-of-python-example", DiffText("python", pb, "mini", FlatMM(mm)));
+     MMFreeMessage(mm);
+     UMessage um; int16 i16 = 0; if (UMInitializeWithExistingData(&um, (const uint8 *)pb.data(), (uint32)pb.size()) != CB_NO_ERROR || UMGetWhatCode(&um) != 666 || UMGetNumFields(&um) != 16 || UMFindInt16(&um, "int16", 1, &i16) != CB_NO_ERROR || i16 != 18 || !UMGetString(&um, "string", 0) || strcmp(UMGetString(&um, "string", 0), "stringme!") != 0) Fail("regress|micro-of-python-example", "UMessage getters on message.py's example");
+     vh::distinct(vh::fnvs(pb), true); vh::stat("python_documentation_example_checked"); }
+   vh::begin_case(2);   // message.py: FlattenedSize() counts the characters, not the UTF-8 bytes, of a field name -> wrong sub-Message length word
+   { g = vh::Rng(102); Scr s; s.what = 2; Fld f; f.name = "sub"; f.type = B_MESSAGE_TYPE; Scr sub; sub.what = 1; sub.f.push_back(MkI("\xc3\xa9", B_INT32_TYPE, 5, 0, 1)); f.mv.push_back(sub); s.f.push_back(f); s.f.push_back(MkI("z", B_INT8_TYPE, 1, 0, 1)); RunWire(2, s, true); }
+   vh::begin_case(3);   // MicroMessage: UMFindData cannot return a zero-length item that is the last of its field
+   { g = vh::Rng(103); Scr s; s.what = 3; Fld f; f.name = "r"; f.type = B_RAW_TYPE; f.sv.push_back("xy"); f.sv.push_back(""); s.f.push_back(f); RunWire(3, s, true); }
+   vh::begin_case(4);   // the documented 8-byte frame from all three gateways
+   { g = vh::Rng(104); caseBad = false; if (ugIn.empty()) { ugIn.resize(2 * 1024 * 1024); ugOut.resize(2 * 1024 * 1024); }
+     std::vector<Scr> ss(1, DocScript()); std::vector<MessageRef> ms(1, BuildCpp(ss[0])); const std::string body = FromHex(DOC_HEX); curJson.clear(); Json(ss[0], curJson);
+     const std::string doc = FromHex("4e000000" "30636e45") + body; curCppHex = vh::hex(doc.data(), doc.size(), 200); std::string sc, sm, su;
+     if (body.size() != 0x4e) HarnessAbort("documented example is not 78 bytes");
+     if (!CppOut(ms, sc, why) || sc != doc) Fail("regress|cpp-gateway-documented-frame", DiffText("documented", doc, "c++ gateway", sc));
+     if (!MiniOut(ss, sm, why) || sm != doc) Fail("regress|mini-gateway-documented-frame", DiffText("documented", doc, "mini gateway", sm));
+     if (!MicroOut(ss, su, why) || su != doc) Fail("regress|micro-gateway-documented-frame", DiffText("documented", doc, "micro gateway", su));
+     std::vector<std::string> got, want(1, body);
+     if (!CppIn(doc, got, why) || got != want) Fail("regress|cpp-gateway-reads-documented-frame", why); got.clear();
+     if (!MiniIn(doc, got, why) || got != want) Fail("regress|mini-gateway-reads-documented-frame", why); got.clear();
+     if (!MicroIn(doc, got, why) || got != want) Fail("regress|micro-gateway-reads-documented-frame", why);
+     vh::distinct(vh::fnvs(doc), true); vh::stat("documented_frame_checked"); }
+}
 //@@REGRESS-END@@
 
 int main(int argc, char ** argv)
